@@ -26,16 +26,16 @@ def Allowed2 : Stop → Prop
   | _ => False
 
 theorem hasTy_optNS_aidl {E : Prop} {v : Val} (h : HasTy E (.optNS .aidl) v) :
-    (v = .none_ ∧ E) ∨ ∃ a, v = .some_ (.aidl a) := by
+    (v = .none_ ∧ E) ∨ ∃ a, v = .some_ (.aidl a) ∧ ItemWF a.item := by
   rcases (hasTy_optNS E _ v).mp h with h1 | ⟨w, rfl, hw⟩
   · exact Or.inl h1
-  · obtain ⟨a, rfl⟩ := (hasTy_aidl E w).mp hw
-    exact Or.inr ⟨a, rfl⟩
+  · obtain ⟨a, rfl, ha⟩ := (hasTy_aidl E w).mp hw
+    exact Or.inr ⟨a, rfl, ha⟩
 
 /-- what `finishE` does with a typed end -/
 theorem finishE_typed (env : Env) (id : String) (s : St) (o : Outcome) (ho : EndOk s o) :
     match finishE env id s o with
-    | .ok r => r.ast = none → hasError r.diags
+    | .ok r => (r.ast = none → hasError r.diags) ∧ ∀ a, r.ast = some a → ItemWF a.item
     | .error st => st ≠ .acceptShape ∧ ∀ p, st = .action p → OkKind p := by
   unfold finishE
   cases o with
@@ -43,9 +43,11 @@ theorem finishE_typed (env : Env) (id : String) (s : St) (o : Outcome) (ho : End
   | actionPanic p => exact ⟨(by intro h; cases h), (by intro q hq; cases hq; exact ho)⟩
   | fuelOut => exact ⟨(by intro h; cases h), (by intro q hq; cases hq)⟩
   | accept v =>
-    rcases hasTy_optNS_aidl ho.1 with ⟨rfl, he⟩ | ⟨a, rfl⟩
-    · exact fun _ => he
-    · intro h; cases h
+    rcases hasTy_optNS_aidl ho.1 with ⟨rfl, he⟩ | ⟨a, rfl, ha⟩
+    · exact ⟨fun _ => he, fun a h => (by cases h)⟩
+    · refine ⟨fun h => (by cases h), fun a' h => ?_⟩
+      cases h
+      exact ha
   | error e =>
     dsimp only
     have := pur_fromParseError (env := env) e s.diags
@@ -54,8 +56,8 @@ theorem finishE_typed (env : Env) (id : String) (s : St) (o : Outcome) (ho : End
     | error m => exact fun hm => ⟨(by intro h; cases h), (by intro q hq; cases hq; exact hm)⟩
     | ok x =>
       obtain ⟨d, ds'⟩ := x
-      rintro ⟨_, hk⟩ _
-      exact ⟨d, List.mem_append_right _ (List.mem_singleton.mpr rfl), hk⟩
+      rintro ⟨_, hk⟩
+      exact ⟨fun _ => ⟨d, List.mem_append_right _ (List.mem_singleton.mpr rfl), hk⟩, fun a h => (by cases h)⟩
 
 theorem kind_cases (k : PanicKind) (h1 : k ≠ .bounds) (h2 : k ≠ .shape) (h3 : k ≠ .table) (h4 : k ≠ .lexical) : False := by
   cases k <;> simp_all
@@ -64,7 +66,7 @@ theorem kind_cases (k : PanicKind) (h1 : k ≠ .bounds) (h2 : k ≠ .shape) (h3 
 theorem addContent_typed_gen (T : Tables) (C : Cert) (TT : TyTables) (hC : C.ok T = true)
     (G : TyFacts T TT) (env : Env) (id text : String) (hE : EnvOk env text.toList) :
     match addContentE T env id text with
-    | .ok r => r.ast = none → hasError r.diags
+    | .ok r => (r.ast = none → hasError r.diags) ∧ ∀ a, r.ast = some a → ItemWF a.item
     | .error st => Allowed2 st := by
   unfold addContentE
   have F := certFacts T C hC
@@ -100,7 +102,15 @@ theorem never_silent (env : Env) (id text : String) (hE : EnvOk env text.toList)
     (h : addContentE Driver.Parse.tables env id text = .ok r) (hnone : r.ast = none) : hasError r.diags := by
   have := addContent_typed_gen Driver.Parse.tables cert tt cert_ok tyFacts_run env id text hE
   rw [h] at this
-  exact this hnone
+  exact this.1 hnone
+
+/-- **For every text**: the generic types of a returned tree have the arities validation relies on
+    (an array has its element, a list at most one parameter, a map none or two) — at every depth. -/
+theorem tree_arities (env : Env) (id text : String) (hE : EnvOk env text.toList) (r : FileResult) (a : AidlFile)
+    (h : addContentE Driver.Parse.tables env id text = .ok r) (ha : r.ast = some a) : ItemWF a.item := by
+  have := addContent_typed_gen Driver.Parse.tables cert tt cert_ok tyFacts_run env id text hE
+  rw [h] at this
+  exact this.2 a ha
 
 
 /-- what `finishE` returns with a tree: the run accepted, and the result's diagnostics are the state's -/
